@@ -49,7 +49,8 @@ def gen_history(rng: random.Random) -> dict:
         elif kind == 'restart':
             ops.append({'op': 'restart'})
         else:
-            ops.append({'op': rng.choice(MODES), 'target': target, 'gen': rng.choice([None, None, rng.randint(0, 5)])})
+            ops.append({'op': rng.choice(MODES), 'target': target, 'gen': rng.choice([None, None, rng.randint(0, 5)]),
+                        'interleave': round(rng.random(), 3) if rng.random() < 0.3 else None})
     return {'releases': releases, 'ops': ops}
 
 
@@ -72,6 +73,7 @@ class Run:
         self.rng = random.Random(seed ^ 0xC04)
         self.findings = base.open_findings(PROP)
         self.known: dict[str, str] = {}
+        self.nstates: dict[str, int] = {}
 
     def close(self):
         if self.child:
@@ -102,7 +104,8 @@ class Run:
     def persistent(self, target: str) -> list[str]:
         return lc.spec_names(self.history['releases'][target], ('S', 'R'))
 
-    def check_load(self, where: str, target: str, generation: int, result: dict, mode: str) -> None:
+    def check_load(self, where: str, target: str, generation: int, result: dict, mode: str, hp=None) -> None:
+        hp = self.hp if hp is None else hp
         expected = self.model[target][generation - 1]
         persistent = set(self.persistent(target))
         seen = collections.Counter()
@@ -122,7 +125,7 @@ class Run:
                 raise base.Violation('wrong-generation-state', f'{where}: actor {name} received training chain '
                                                                f'{state["chain"]}, generation {generation} holds '
                                                                f'{expected[name]}', mode=mode)
-            want_hp = self.hp * 100 + ord(name[0])
+            want_hp = hp * 100 + ord(name[0])
             if rec['hp'] != want_hp:
                 raise base.Violation('stale-hyperparameters', f'{where}: actor {name} ran with hp={rec["hp"]}, the '
                                                               f'current code says {want_hp} (trained with '
@@ -133,7 +136,8 @@ class Run:
         if result['nstates'] != len(self.model[target][0].get('__nstates__', [None] * result['nstates'])):
             pass
 
-    def check_train(self, where: str, target: str, result: dict, token: int) -> dict:
+    def check_train(self, where: str, target: str, result: dict, token: int, hp=None) -> dict:
+        hp = self.hp if hp is None else hp
         previous = self.model[target][-1] if self.model[target] else {}
         persistent = set(self.persistent(target))
         trainonly = set(lc.spec_names(self.history['releases'][target], ('T',)))
@@ -149,7 +153,7 @@ class Run:
                                             f'own previous state is {want_prev}', mode='train')
             if rec['tokens'] != [token]:
                 raise base.Violation('wrong-data', f'{where}: actor {name} trained on tokens {rec["tokens"]}', mode='train')
-            want_hp = self.hp * 100 + ord(name[0])
+            want_hp = hp * 100 + ord(name[0])
             if rec['hp'] != want_hp:
                 raise base.Violation('stale-hyperparameters', f'{where}: actor {name} trained with hp={rec["hp"]}, the '
                                                               f'current code says {want_hp}', mode='train')
@@ -216,6 +220,7 @@ class Run:
                 raise base.Violation('generation-number', f'{where}: committed generation {res.value["generation"]}',
                                      mode='train')
             self.model[target].append(new)
+            self.nstates[target] = res.value['nstates']
             self.check_load(where + ' [train-mode apply]', target, len(self.model[target]), res.value, 'train')
             self.stats['op:train'] += 1
             self.events.append([kind, target, res.value['generation'], res.value['nstates']])
@@ -228,7 +233,28 @@ class Run:
                 'token': 900 + idx}
         where = (f'op{idx} {kind} {target} generation {"latest=" if op["gen"] is None else ""}{generation} '
                  f'(incarnation {self.nchild + (0 if self.child and self.child.alive else 1)})')
-        res = self.incarnation().call(kind, args)
+        pause = None
+        if op.get('interleave') is not None:
+            nstates = self.nstates.get(target, 1)
+            pause = {'at': 1 + int(op['interleave'] * nstates), 'match': ['.bin']}
+        child = self.incarnation()
+        res = child.call(kind, args, None, pause)
+        if res.status == 'paused':
+            # while this process sits between two of its state loads, another process trains and commits
+            self.stats['fault:training-committed-between-state-loads'] += 1
+            self.ntok += 1
+            token = self.ntok
+            other_hp = 50 + idx
+            with boxmod.Child(self.box.root, OPTABLE, self.seed * 71 + idx,
+                              env={'LC_LOG': self.logfile + '.other', 'LC_HP': str(other_hp)}) as other:
+                tres = other.call('train', {'project': project, 'release': release, 'token': token})
+            twhere = f'{where} [concurrent training by another process, token {token}]'
+            if not tres.ok:
+                raise base.Violation('action-failed', f'{twhere}: {tres.value}', mode='train')
+            new = self.check_train(twhere, target, tres.value, token, hp=other_hp)
+            self.model[target].append(new)
+            res = child.resume()
+            where += f' [a training committed generation {len(self.model[target])} between its state loads]'
         try:
             if not res.ok:
                 raise base.Violation('action-failed', f'{where}: {res.value}', mode=kind)
